@@ -1,6 +1,6 @@
-"""C01 — compiled SQL returns exactly the multiset the program denotes.
+"""C02 — compiled SQL returns exactly the multiset the program denotes.
 
-(T) lean/LogicaModel/Props/C01.lean
+(T) lean/LogicaModel/Props/C02.lean
 (K/S) generated core-fragment programs: rows + column names from the real pipeline on SQLite versus the
       Lean reference evaluator Sem.denote on the generator's AST.
 """
@@ -9,19 +9,19 @@ import gen_program as G
 import semcheck
 
 RULE = ('type-directed generated programs (2-3 fact tables of <=5 rows with duplicates, 2-5 derived predicates, '
-        '1-3 rules each, <=3 atoms per body) over the C01 feature mask: conjunction, disjunction (nested), named '
+        '1-3 rules each, <=3 atoms per body) over the C02 feature mask: conjunction, disjunction (nested), named '
         'and positional arguments, arithmetic, comparison, assignment chains, `in` over literals/Range, lists, '
         'records + subscripts, if-then-else, functional predicates, expression arguments; every defined '
         'predicate is queried; non-trivial = predicate with at least one rule body and a non-empty result; '
         'distinct by program text')
 ASSUMPTIONS = ('SQLite 3.40.1 executes the emitted SQL; 64-bit overflow and floats are outside the generated domain',)
 
-MASK = {'disj', 'named', 'arith', 'cmp', 'assign', 'in', 'lists', 'records', 'ite', 'functional', 'multirule',
-        'strs', 'dupfacts', 'headexpr', 'injectible'}
+MASK = {'disj', 'named', 'arith', 'cmp', 'assign', 'in', 'multirule', 'strs', 'dupfacts', 'headexpr',
+        'agg', 'aggexpr', 'neg', 'nested_agg', 'functional', 'injectible'}
 
 
 def key_of(p, what):
-  return 'c01:%s:%s' % (p.kind, what)
+  return 'c02:%s:%s' % (p.kind, what)
 
 
 def run(ck):
